@@ -37,5 +37,8 @@ Env == /\ (StepLoc \/ UserReset \/ UserSetInfo \/ NetChange \/ \E t \in Tasks : 
 LNext == Sched \/ Env
 LSpec == LInit /\ [][LNext]_lvars /\ WF_lvars(Sched) /\ WF_lvars(StepLoc /\ UNCHANGED turn)
 
+\* every step of the scheduled machine is a step of Lifecycle (or changes only `turn`): safety carries over
+RefinesLifecycle == [][Next]_vars
+
 LHeals == (Quiet /\ hasId) ~> (st = "CONNECTED" \/ Escaped \/ (KF_NotFound /\ st = "NOT_FOUND") \/ nextEp > MaxEp)
 ===============================================================================
